@@ -33,7 +33,10 @@ LITS = ['<b>', '</b>', '<p tal:content="x">', '<?python y = 1 ?>', '<!-- c -->',
         '<tal:block replace="x"/>', 'metal:use-macro="m"', '${', '$ {x}', 'i18n:translate=""', '</', '<!', '<?', '\n\n', '\n \n', '}\n', 'p { margin: 0 }\n', '\n\t\n']
 EXPRS = [("x", '<V&>'), ("y", 'Zoë'), ("'}'", '}'), ("{'a': 1}['a']", '1'), ("'<' + y + '>'", '<Zoë>'), ("len({1, 2})", '2'), ("f'{y}!'", 'Zoë!'),
          ("n", '7'), ("1 < 2", 'True'), ("'$$'", '$$'), ("'{0}'.format(y)", 'Zoë'), ("'\"'", '"'), ('"\'"', "'"),
-         ("str({'k': '}'}['k'])", '}'), ("none", ''), ("max(1,\n\n 2)", '2'), ("'a' +\n \n 'b'", 'ab'), ("(y\n\n)", 'Zoë'), ("[n,\n\t\n n][0]", '7'), ("'<b>'", '<b>'), ("x | y", '<V&>'), ("nope | y", 'Zoë'), ("structure: x", '<V&>')]
+         ("str({'k': '}'}['k'])", '}'), ("none", ''), ("max(1,\n\n 2)", '2'), ("'a' +\n \n 'b'", 'ab'), ("(y\n\n)", 'Zoë'), ("[n,\n\t\n n][0]", '7'), ("'<b>'", '<b>'), ("x | y", '<V&>'), ("nope | y", 'Zoë'), ("structure: x", '<V&>'),
+         # an ampersand in front of letters that begin a legacy entity name, without the ';' that would make it a character reference
+         ("'?p=2&copy=1'", '?p=2&copy=1'), ("'a&region=eu&notify=1'", 'a&region=eu&notify=1'), ("n&n", '7'), ("'&apos;'", '&apos;'), ("'&#65'", '&#65'),
+         ("'&foo;'", '&foo;'), ("'&'", '&'), ("'x&y'", 'x&y')]
 VARS = [['x', {'str': '<V&>'}], ['y', {'str': 'Zoë'}], ['n', 7], ['none', None]]
 
 
